@@ -4,6 +4,7 @@ package hserver
 // Each prints FINDING-PRESENT <id> or FINDING-ABSENT <id>; the driver turns the former into a KNOWN-FINDING line.
 
 import (
+	"sync/atomic"
 	"fmt"
 	"testing"
 	"time"
@@ -95,4 +96,88 @@ func TestFinding_C05_ResumeWithoutCheckpoint(tt *testing.T) {
 		fmt.Printf("row %d written to %s while the task was paused never reached the downstream; later rows did\n", lost, c.vch[1])
 		fmt.Println("FINDING-PRESENT " + id)
 	}
+}
+
+// F-C05-resume-overtaken-by-stale-pause: the final flush of the incarnation stopped by a pause writes a checkpoint; the store
+// rejects it after the task has been resumed; the "automatic" pause that follows stops the readers the resume has just started,
+// while the state written last is Running. Rows written afterwards are not replicated although the task reports Running.
+func TestFinding_C05_ResumeOvertakenByStalePause(tt *testing.T) {
+	const id = "F-C05-resume-overtaken-by-stale-pause"
+	t := plainT{tt}
+	w := newWorld(t, worldOpt{targets: 1, packerMax: 1})
+	defer w.close(t)
+	p := w.newProducer()
+	defer p.close()
+	tgt := w.targets[0]
+	c := w.addSourceCollection(t, "default", "ca", 2, tgt)
+	pchs := []string{c.pch[0], c.pch[1]}
+	for _, pc := range pchs {
+		p.tick(pc, 10)
+	}
+	inc := w.prepare(t)
+	r := inc.post(t, "create", map[string]any{"milvus_connect_param": map[string]any{"uri": w.uris[0], "connect_timeout": 3},
+		"collection_infos": []any{map[string]any{"name": "ca"}}})
+	if r.Code != 200 {
+		t.Fatalf("VERIF-TROUBLE: create failed: %s", r.Raw)
+	}
+	task, _ := r.Data["task_id"].(string)
+	arrived := func(rows []int64) func() bool {
+		return func() bool {
+			acc := acceptedRows(tgt)
+			for _, r := range rows {
+				if acc[r] == 0 {
+					return false
+				}
+			}
+			return true
+		}
+	}
+	flowing := false
+	for i := 0; i < 6 && !flowing; i++ {
+		rows := append(p.insert(c, 0, 1, 3), p.insert(c, 1, 1, 3)...)
+		flowing = waitTicking(p, pchs, 5*time.Second, arrived(rows))
+	}
+	if !flowing {
+		t.Fatalf("VERIF-TROUBLE %s: replication did not start", id)
+	}
+	quiesce.WaitStable(func() int { return tgt.NumCalls() }, 4*time.Second)
+	// the race is not owned by the harness: a few attempts of "checkpoint writes are rejected, pause, resume at once"
+	for attempt := 0; attempt < 8; attempt++ {
+		var armed atomic.Bool
+		armed.Store(true)
+		inc.store.setHook(func(op *storeOp) error {
+			if op.Kind == "pos.put" && armed.Load() {
+				return fmt.Errorf("injected: store rejects the checkpoint")
+			}
+			return nil
+		})
+		go func() { p.insert(c, 0, 1, 3); p.tick(c.pch[0], 2); p.tick(c.pch[1], 2) }()
+		if attempt%2 == 1 {
+			time.Sleep(time.Duration(attempt) * time.Millisecond)
+		}
+		inc.post(t, "pause", map[string]any{"task_id": task})
+		inc.post(t, "resume", map[string]any{"task_id": task})
+		quiesce.WaitStable(func() int { return tgt.NumCalls() }, 4*time.Second)
+		armed.Store(false)
+		quiesce.WaitStable(func() int { return tgt.NumCalls() }, 4*time.Second)
+		state, _ := taskView(w, t, task)
+		if state == "Running" {
+			rows := append(p.insert(c, 0, 1, 3), p.insert(c, 1, 1, 3)...)
+			if !waitTicking(p, pchs, 6*time.Second, arrived(rows)) {
+				if s2, _ := taskView(w, t, task); s2 == "Running" {
+					fmt.Printf("FINDING-PRESENT %s (attempt %d: task reports Running, rows written after the resume are not replicated)\n", id, attempt)
+					return
+				}
+			}
+		}
+		// back to a running task for the next attempt
+		for k := 0; k < 3; k++ {
+			if s3, _ := taskView(w, t, task); s3 == "Running" {
+				break
+			}
+			quiesce.WaitStable(func() int { return tgt.NumCalls() }, 4*time.Second)
+			inc.post(t, "resume", map[string]any{"task_id": task})
+		}
+	}
+	fmt.Printf("FINDING-ABSENT %s (the schedule did not occur in 8 attempts)\n", id)
 }
